@@ -55,6 +55,7 @@ fn main() {
         "C15" => props::c15::main(&args),
         "C16" => props::c16::main(&args),
         "C20" => props::c20::main(&args),
+        "C17" => props::c17::main(&args),
         "C18" => props::c18::main(&args),
         other => {
             eprintln!("unknown property {other}");
